@@ -860,6 +860,8 @@ def c02(tier):
                 t = str(gtext).strip()
                 if kind == "FloatInput":
                     c = int((Decimal(t or "0") * 100).to_integral_value())
+                    if abs(Decimal(t or "0")) <= 10:
+                        R[pn] = int((Decimal(t or "0") * 100000).to_integral_value())      # a rate the filer enters (a county's tax rate): usable as a ratio
                 elif kind == "IntegerInput":
                     c = int(t or "0") * 100
                 elif kind == "BooleanInput":
